@@ -13,8 +13,9 @@ is the value-machine result — a function of the library's cell values and the 
 time —, (3) removing every caller write to an object that is not handed in again changes no result
 (`discipline_noninterference`). Converse witnesses (`alias_breaks_it_*`): one aliasing instruction
 suffices to break each part. The table rows and all wrapper stacks over them are copy-discipline
-(`table_rows_disciplined`, `wrapper_stacks_disciplined`) except the recorded finding
-(`her_copy_info_dict_counterexample`).
+(`table_rows_disciplined`, `wrapper_stacks_disciplined`), with no exception left: the former finding
+K-C19-a (HerReplayBuffer kept the caller's info dicts) was repaired in /repo (cb7b2df) and survives
+only as the converse witness `alias_breaks_it_her_infos_by_reference`.
 
 What is NOT proved: that the real calls have the modes of the table. That is MEASURED on the real
 objects on every run by `/verif/harness/c19.py` (memory overlap / identity against everything
@@ -174,11 +175,14 @@ theorem compile_discipline (sig : Sig) (h : sig.discipline = true) : (compile si
   simp only [compile, List.all_append, Bool.and_eq_true]
   exact ⟨⟨by simp [Instr.discipline], hargs _ 0 h.1⟩, hres _ 0 h.2⟩
 
-/-- every row of the table that lies inside the sentence of the property follows the copy discipline,
-except the recorded exception(s) -/
+/-- every row of the table that lies inside the sentence of the property follows the copy discipline
+(no exceptions) -/
 theorem table_rows_disciplined :
-    ∀ r ∈ apiRows, r.inStatement = true → r.key ∉ exceptions → r.sig.discipline = true := by
+    ∀ r ∈ apiRows, r.inStatement = true → r.sig.discipline = true := by
   decide
+
+/-- the list of recorded exceptions is empty -/
+theorem table_has_no_exceptions : exceptions = [] := rfl
 
 /-- every wrapper of the table is clean: it neither writes through nor keeps alive the actions, and never
 hands out its own state -/
@@ -232,10 +236,10 @@ theorem base_rows_disciplined :
     ∀ r ∈ apiRows, (r.cls = "DummyVecEnv" ∨ r.cls = "SubprocVecEnv") → r.sig.discipline = true := by
   decide
 
-/-- **programs over the table** (the `_partial` form for the recorded finding): every program whose library
-calls are compiled from copy-discipline signatures — i.e. from any in-statement table row other than the
-exception, and from any wrapper stack — is non-interfering in the sense of `discipline_noninterference`. -/
-theorem table_programs_noninterfere_partial (n : Nat) (pre rest : List Step)
+/-- **programs over the table**: every program whose library calls are compiled from copy-discipline
+signatures — i.e. from any in-statement table row (`table_rows_disciplined`) and from any wrapper stack
+(`wrapper_stacks_disciplined`) — is non-interfering in the sense of `discipline_noninterference`. -/
+theorem table_programs_noninterfere (n : Nat) (pre rest : List Step)
     (hpre : ∀ st ∈ pre, ∀ ins hs, st = Step.call ins hs → ∃ sg : Sig, sg.discipline = true ∧ ins = compile sg)
     (hrest : ∀ st ∈ rest, ∀ ins hs, st = Step.call ins hs → ∃ sg : Sig, sg.discipline = true ∧ ins = compile sg) :
     (∀ h, h < (run pre (init n)).held.length →
@@ -255,20 +259,23 @@ theorem table_programs_noninterfere_partial (n : Nat) (pre rest : List Step)
       exact compile_discipline sg hsg
   exact discipline_noninterference n pre rest (conv pre hpre) (conv rest hrest)
 
-example : ∃ r ∈ apiRows, r.inStatement = true ∧ r.key ∉ exceptions ∧ r.args.length = 6 ∧ r.sig.discipline = true :=
+example : ∃ r ∈ apiRows, r.inStatement = true ∧ r.args.length = 6 ∧ r.sig.discipline = true :=
   ⟨_, List.mem_of_getElem? (i := 9) rfl, by decide⟩
 
-/-- **Recorded finding K-C19-a** — `HerReplayBuffer(copy_info_dict=True).add` stores the caller's info dicts
-by reference (row `herAddCopyInfo`): the program "create the six arguments, `add`, overwrite `infos`, `sample`"
-compiled from the table gives a `sample` result that differs from the value machine's and from the run
-without the caller's write — the full non-interference statement is false for that row. -/
-theorem her_copy_info_dict_counterexample :
+/-- **storedByRef at table scale** (the shape of the repaired K-C19-a: `HerReplayBuffer(copy_info_dict=True).add`
+kept the caller's info dicts themselves): with the signature the row had before the repair, the program "create
+the six arguments, `add`, overwrite `infos`, `sample`" gives a `sample` result that differs from the value
+machine's and from the run without the caller's write; with the row as it is now both agree. -/
+theorem alias_breaks_it_her_infos_by_reference :
     let sample : Sig := ⟨[], [.fresh]⟩
-    let prog := [Step.new 100, .new 101, .new 102, .new 103, .new 104, .new 105,
-                 .call (compile herAddCopyInfo.sig) [0, 1, 2, 3, 4, 5], .write 5 sentinel, .call (compile sample) []]
-    herAddCopyInfo ∈ apiRows ∧ herAddCopyInfo.inStatement = true ∧ herAddCopyInfo.sig.discipline = false ∧
-      (run prog (init nSlots)).trace ≠ (vrun prog (vinit nSlots)).trace ∧
-      (run prog (init nSlots)).trace ≠ (run (stripDeadWrites prog) (init nSlots)).trace := by
+    let prog (add : Sig) := [Step.new 100, .new 101, .new 102, .new 103, .new 104, .new 105,
+                 .call (compile add) [0, 1, 2, 3, 4, 5], .write 5 sentinel, .call (compile sample) []]
+    herAddCopyInfoOld.discipline = false ∧
+      (run (prog herAddCopyInfoOld) (init nSlots)).trace ≠ (vrun (prog herAddCopyInfoOld) (vinit nSlots)).trace ∧
+      (run (prog herAddCopyInfoOld) (init nSlots)).trace ≠
+        (run (stripDeadWrites (prog herAddCopyInfoOld)) (init nSlots)).trace ∧
+      herAddCopyInfo ∈ apiRows ∧ herAddCopyInfo.sig.discipline = true ∧
+      (run (prog herAddCopyInfo.sig) (init nSlots)).trace = (vrun (prog herAddCopyInfo.sig) (vinit nSlots)).trace := by
   decide
 
 end SB3Verif.C19
